@@ -49,9 +49,12 @@ func (c immCfg) String() string {
 var immKinds = []string{"none", "form", "multipart", "json", "xml", "cbor", "gzip-json"}
 
 type immShape struct {
-	Kind  string
-	Fwd   bool // X-Forwarded-Proto / X-Forwarded-Host present
-	Port  bool
+	Kind string
+	Fwd  bool // X-Forwarded-Proto / X-Forwarded-Host present
+	Port bool
+	// Route: 0 the request matches the capture route; 1 it matches no route (404); 2 its path is
+	// registered for other methods only (405). In 1 and 2 the app's ErrorHandler is the observer.
+	Route int
 	Comma bool   // the values bound into string and []string fields contain a comma
 	CEnc  string // a Content-Encoding the framework does not decode (json/xml/cbor bodies only), "" = none
 	Len   map[string]int
@@ -96,6 +99,7 @@ func genShape(r *gen.Rand) *immShape {
 	for _, f := range []string{"s1", "s2", "f1", "f2", "qkn", "hkn"} {
 		sh.Len[f] = r.Range(1, 20)
 	}
+	sh.Route = r.PickW(4, 1, 1)
 	if sh.Comma {
 		for _, f := range commaFields {
 			if sh.Len[f] < 3 {
@@ -182,18 +186,28 @@ func genImmReq(r *gen.Rand, sh *immShape, idx int) *immReq {
 	}
 	q.IP = [3]string{ip4(r), ip4(r), ip4(r)}
 	v := q.V
-	q.Path = "/cap/" + v["pa"] + "/" + v["pb"] + "/" + q.Num["pn"] + "/" + v["w1"] + "/" + v["w2"]
+	prefix := "/cap/"
+	if sh.Route == 1 {
+		prefix = "/nom/"
+	}
+	q.Path = prefix + v["pa"] + "/" + v["pb"] + "/" + q.Num["pn"] + "/" + v["w1"] + "/" + v["w2"]
 	q.Target = q.Path + "?qs=" + v["qs"] + "&qb=" + q.Num["qb0"] + "&qb=" + q.Num["qb1"] + "&ql=" + v["ql0"] + "&ql=" + v["ql1"] + "&qx=" + v["qx"] + "&k" + v["qkn"] + "=" + v["qkv"] + "&k" + v["qkn"] + "=" + v["qkw"]
 	q.Host = v["s1"] + "." + v["s2"] + ".example.com"
 	if sh.Port {
 		q.Host += ":8080"
 	}
 	q.Method = "POST"
+	if sh.Route == 2 {
+		q.Method = "PUT" // the capture route is registered for GET and POST only
+	}
 	ctype := ""
 	switch sh.Kind {
 	case "none":
 		q.Method = "GET"
 		ctype = "Text/Plain; Charset=UTF-8"
+		if sh.Route == 2 {
+			q.Method = "DELETE"
+		}
 	case "form":
 		ctype = "application/x-www-form-urlencoded; Charset=UTF-8"
 		q.Plain = []byte("fs=" + v["fs"] + "&fb=" + q.Num["fb"] + "&fl=" + v["fl0"] + "&fl=" + v["fl1"] + "&fv=" + v["fv"])
@@ -260,7 +274,7 @@ func genImmReq(r *gen.Rand, sh *immShape, idx int) *immReq {
 	raw.WriteString("Content-Type: " + ctype + "\r\n")
 	raw.WriteString("Accept: " + q.Accept + "\r\nAccept-Language: en-US, De;q=0.5\r\nAccept-Charset: UTF-8\r\nAccept-Encoding: GZip, Br\r\n")
 	raw.WriteString("Range: bytes=0-9\r\nIf-None-Match: W/\"" + v["xc"] + "\"\r\nCache-Control: Max-Age=0\r\nX-Requested-With: XMLHttpRequest\r\n")
-	if q.Method == "POST" {
+	if q.Method == "POST" || q.Method == "PUT" {
 		raw.WriteString("Content-Length: " + strconv.Itoa(len(q.Body)) + "\r\n")
 	}
 	raw.WriteString("\r\n")
@@ -287,15 +301,16 @@ func (q *immReq) effScheme() string {
 // ---------------------------------------------------------------------------------------------
 
 type immCapture struct {
-	acc    string
-	phase  string
-	isB    bool
-	ls     string
-	lb     []byte
-	cs     string
-	cb     []byte
-	exp    string
-	hasExp bool
+	flagged bool // already reported / no longer looked at inside the handler
+	acc     string
+	phase   string
+	isB     bool
+	ls      string
+	lb      []byte
+	cs      string
+	cb      []byte
+	exp     string
+	hasExp  bool
 }
 
 func (c *immCapture) changed() bool {
@@ -422,21 +437,34 @@ type immCB struct {
 }
 
 // capture calls every accessor on c. q is the request being served (the expectation).
-func capture(c fiber.Ctx, q *immReq, cfg immCfg, s *capSet) {
+//
+// matched: the request entered the capture route (else the observer is the ErrorHandler of an
+// unrouted request: no route parameters, and Route() describes the request itself).
+// withResp: also look at the response headers the handler set itself.
+func capture(c fiber.Ctx, q *immReq, cfg immCfg, s *capSet, matched, withResp bool) {
 	v := q.V
 	s.ptr = ctxPtr(c)
-	wild := v["w1"] + "/" + v["w2"]
-	expParam := map[string]string{"pa": v["pa"], "pb": v["pb"], "pn": q.Num["pn"], "*1": wild}
-	for _, p := range c.Route().Params {
-		e, ok := expParam[p]
-		if !ok {
-			e = noExp
+	if matched {
+		wild := v["w1"] + "/" + v["w2"]
+		expParam := map[string]string{"pa": v["pa"], "pb": v["pb"], "pn": q.Num["pn"], "*1": wild}
+		for _, p := range c.Route().Params {
+			e, ok := expParam[p]
+			if !ok {
+				e = noExp
+			}
+			s.S("Params", c.Params(p), e)
 		}
-		s.S("Params", c.Params(p), e)
+		s.S("Params", c.Params("*"), wild)
+		s.S("Params[T]", fiber.Params[string](c, "pa"), v["pa"])
+		s.B("Params[[]byte]", fiber.Params[[]byte](c, "pb"), []byte(v["pb"]), true)
+		s.S("Route.Path", c.Route().Path, capRoute)
+	} else {
+		rt := c.Route()
+		s.S("Route.Path", rt.Path, q.Path)
+		s.S("Route.Method", rt.Method, q.Method)
+		s.S("Route.Name", rt.Name, "")
 	}
-	s.S("Params", c.Params("*"), wild)
-	s.S("Params[T]", fiber.Params[string](c, "pa"), v["pa"])
-	s.B("Params[[]byte]", fiber.Params[[]byte](c, "pb"), []byte(v["pb"]), true)
+	s.S("String", c.String(), noExp)
 	s.S("Path", c.Path(), q.Path)
 	s.S("OriginalURL", c.OriginalURL(), q.Target)
 	s.S("Protocol", c.Protocol(), q.Proto)
@@ -493,16 +521,18 @@ func capture(c fiber.Ctx, q *immReq, cfg immCfg, s *capSet) {
 			s.L("GetReqHeaders.value", vals, []string{v["hkv"], v["hkw"]})
 		}
 	}
-	rsk := "Xs" + v["hkn"]
-	s.S("GetRespHeader", c.GetRespHeader("Rs"), v["hs"])
-	rm := c.GetRespHeaders()
-	for _, k := range sortedKeys(rm) {
-		switch k {
-		case rsk:
-			s.S("GetRespHeaders.key", k, rsk)
-			s.L("GetRespHeaders.value", rm[k], []string{v["hkv"], v["hkw"]})
-		case "Rl":
-			s.L("GetRespHeaders.value", rm[k], []string{v["hl0"], v["hl1"]})
+	if withResp {
+		rsk := "Xs" + v["hkn"]
+		s.S("GetRespHeader", c.GetRespHeader("Rs"), v["hs"])
+		rm := c.GetRespHeaders()
+		for _, k := range sortedKeys(rm) {
+			switch k {
+			case rsk:
+				s.S("GetRespHeaders.key", k, rsk)
+				s.L("GetRespHeaders.value", rm[k], []string{v["hkv"], v["hkw"]})
+			case "Rl":
+				s.L("GetRespHeaders.value", rm[k], []string{v["hl0"], v["hl1"]})
+			}
 		}
 	}
 	s.S("Cookies", c.Cookies("ck"), v["ck"])
@@ -550,7 +580,7 @@ func capture(c fiber.Ctx, q *immReq, cfg immCfg, s *capSet) {
 		}
 		return sent
 	}
-	{
+	if withResp {
 		var st immR
 		s.err("Bind.RespHeader", c.Bind().RespHeader(&st))
 		s.S("Bind.RespHeader.string-field", st.S, v["hs"])
@@ -606,7 +636,7 @@ func capture(c fiber.Ctx, q *immReq, cfg immCfg, s *capSet) {
 		s.err("Bind.Cookie.map", c.Bind().Cookie(&m))
 		s.S("Bind.Cookie.map-value", m["cs"], mapExp(v["cs"]))
 	}
-	{
+	if matched {
 		var st immU
 		s.err("Bind.URI", c.Bind().URI(&st))
 		s.S("Bind.URI.string-field", st.S, v["pa"])
@@ -673,13 +703,26 @@ func immBuild(cfg immCfg, immutable bool, side *immSide) *fiber.App {
 			fc.TrustProxyConfig = fiber.TrustProxyConfig{Proxies: []string{"203.0.113.7"}}
 		}
 	}
+	observe := immObserver(cfg, side)
+	fc.Views = &nullViews{}
+	fc.ErrorHandler = func(c fiber.Ctx, _ error) error { return observe(c, false) }
 	app := fiber.New(fc)
 	if cfg.Custom {
 		app.NewCtxFunc(func(a *fiber.App) fiber.CustomCtx {
 			return &customCtx{DefaultCtx: fiber.NewDefaultCtx(a)}
 		})
 	}
-	app.All("/cap/:pa/:pb/:pn/*", func(c fiber.Ctx) error {
+	app.Get("/named/:id", func(c fiber.Ctx) error { return c.SendString("named") }).Name("named")
+	app.Add([]string{fiber.MethodGet, fiber.MethodPost}, capRoute, func(c fiber.Ctx) error { return observe(c, true) })
+	return app
+}
+
+const capRoute = "/cap/:pa/:pb/:pn/*"
+
+// immObserver is the body of the capture handler and of the ErrorHandler (unrouted requests).
+func immObserver(cfg immCfg, side *immSide) func(c fiber.Ctx, matched bool) error {
+	dir := fileDir()
+	return func(c fiber.Ctx, matched bool) error {
 		i := side.served
 		side.served++
 		if i >= len(side.reqs) {
@@ -693,21 +736,42 @@ func immBuild(cfg immCfg, immutable bool, side *immSide) *fiber.App {
 		c.Response().Header.Add("Xs"+q.V["hkn"], q.V["hkv"])
 		c.Response().Header.Add("Xs"+q.V["hkn"], q.V["hkw"])
 		cs := &capSet{req: i, phase: "first-read"}
-		capture(c, q, cfg, cs)
+		capture(c, q, cfg, cs, matched, true)
 		// what a handler ordinarily does next: read-only helpers. None of them may disturb a value
 		// already handed out, nor what a later read returns.
 		readOnlyHelpers(c)
 		cs.phase = "read-after-helpers"
-		capture(c, q, cfg, cs)
+		capture(c, q, cfg, cs, matched, true)
 		// correctness inside the handler (both modes), and stability until the handler returns
-		for _, cp := range cs.caps {
-			if cp.hasExp && cp.was() != cp.exp {
-				side.wrong = append(side.wrong, map[string]any{"accessor": cp.acc, "got": cp.was(), "want": cp.exp, "request": i, "phase": cp.phase})
+		check := func(from int) {
+			for _, cp := range cs.caps[from:] {
+				if cp.hasExp && cp.was() != cp.exp {
+					side.wrong = append(side.wrong, map[string]any{"accessor": cp.acc, "got": cp.was(), "want": cp.exp, "request": i, "phase": cp.phase})
+				}
 			}
-			if cp.changed() {
-				side.unstable = append(side.unstable, map[string]any{"accessor": cp.acc, "got": cp.now(), "at_capture": cp.was(), "request": i, "phase": cp.phase})
+			for _, cp := range cs.caps {
+				if cp.changed() && !cp.flagged {
+					cp.flagged = true
+					side.unstable = append(side.unstable, map[string]any{"accessor": cp.acc, "got": cp.now(), "at_capture": cp.was(), "request": i, "phase": cp.phase})
+				}
 			}
 		}
+		check(0)
+		// Then the handler produces its response, possibly in several attempts: none of the
+		// response-side helpers may change what the request-side accessors returned or return.
+		// (The handler's own response headers are its to overwrite: values read from the response
+		// are no longer looked at inside this handler; they stay in the after-the-handler check.)
+		nReq := len(cs.caps)
+		for _, cp := range cs.caps {
+			if strings.HasPrefix(cp.acc, "GetRespHeader") || strings.HasPrefix(cp.acc, "Bind.RespHeader") {
+				cp.flagged = true
+			}
+		}
+		responseHelpers(c, dir)
+		c.Response().Reset()
+		cs.phase = "read-after-response-helpers"
+		capture(c, q, cfg, cs, matched, false)
+		check(nReq)
 		side.sets = append(side.sets, cs)
 		// from inside the last handler: are request 0's references still intact?
 		if i == len(side.reqs)-1 && i > 0 {
@@ -718,9 +782,34 @@ func immBuild(cfg immCfg, immutable bool, side *immSide) *fiber.App {
 				}
 			}
 		}
-		return c.SendString("ok " + strconv.Itoa(i))
-	})
-	return app
+		return c.Status(fiber.StatusOK).SendString("ok " + strconv.Itoa(i))
+	}
+}
+
+// responseHelpers: the response-producing and link-building helpers of the context.
+func responseHelpers(c fiber.Ctx, dir string) {
+	_ = c.String()
+	c.Attachment("monthly report.txt")
+	c.Links("http://api.example.com/files?page=2", "next", "http://api.example.com/files?page=5", "last")
+	_, _ = c.GetRouteURL("named", fiber.Map{"id": "77"})
+	_ = c.Render("tpl", fiber.Map{"k": "v"})
+	_ = c.Format(
+		fiber.ResFmt{MediaType: "text/plain", Handler: func(c fiber.Ctx) error { return c.SendString("plain") }},
+		fiber.ResFmt{MediaType: "application/json", Handler: func(c fiber.Ctx) error { return c.JSON(fiber.Map{"a": 1}) }},
+	)
+	_ = c.Redirect().With("k", "v", 0x41).To("/elsewhere")
+	_ = c.SendFile(dir+"/no-such-file.txt", fiber.SendFile{CacheDuration: -1})
+	_ = c.SendFile(dir+"/a.txt", fiber.SendFile{CacheDuration: -1})
+	c.Response().ResetBody()
+	c.Cookie(&fiber.Cookie{Name: "sid", Value: "abc"})
+	c.Vary("Origin")
+	c.Append("X-Extra", "1", "2")
+	c.Type("json")
+	c.Location("/x")
+	_ = c.JSON(fiber.Map{"a": []int{1, 2}})
+	_ = c.XML(struct{ A string }{"x"})
+	_ = c.SendStatus(204)
+	_ = c.String()
 }
 
 func sortedKeys[V any](m map[string]V) []string {
@@ -769,6 +858,7 @@ func trunc(s string) string {
 
 func runImmutable(e *ev.Env) {
 	e.Note("gomaxprocs", strconv.Itoa(runtime.GOMAXPROCS(0)))
+	defer cleanupFiles()
 	immCorpus(e)
 	e.Cases("run", e.N(300, 20000), func(c *ev.Case) {
 		r := c.R
@@ -811,7 +901,7 @@ func judgeImm(e *ev.Env, c *ev.Case, cfg immCfg, sh *immShape, n int, r *gen.Ran
 	}
 	e.Eval(2 * len(reqs))
 	base := func() map[string]any {
-		return map[string]any{"cfg": cfg.String(), "kind": sh.Kind, "fwd": sh.Fwd, "followups": n, "capture_request": string(reqs[0].Raw), "next_request": string(reqs[1].Raw)}
+		return map[string]any{"cfg": cfg.String(), "kind": sh.Kind, "route_mode": sh.Route, "fwd": sh.Fwd, "followups": n, "capture_request": string(reqs[0].Raw), "next_request": string(reqs[1].Raw)}
 	}
 	// --- correctness inside the handler, both modes -------------------------------------------
 	for _, side := range []*immSide{imm, ctl} {
@@ -897,7 +987,7 @@ func immCorpus(e *ev.Env) {
 	// smallest witnesses: every component 2 bytes long, no body, default ctx, one later request
 	e.Corpus("minimal-get", func(c *ev.Case) {
 		sh := genShape(c.R)
-		sh.Kind, sh.Fwd, sh.Port = "none", false, false
+		sh.Kind, sh.Fwd, sh.Port, sh.Route = "none", false, false, 0
 		for k := range sh.Len {
 			sh.Len[k] = 2
 		}
@@ -905,7 +995,7 @@ func immCorpus(e *ev.Env) {
 	})
 	e.Corpus("minimal-form", func(c *ev.Case) {
 		sh := genShape(c.R)
-		sh.Kind, sh.Fwd, sh.Port = "form", false, false
+		sh.Kind, sh.Fwd, sh.Port, sh.Route = "form", false, false, 0
 		for k := range sh.Len {
 			sh.Len[k] = 2
 		}
@@ -919,6 +1009,16 @@ func immCorpus(e *ev.Env) {
 			judgeImm(e, c, immCfg{}, sh, 1, c.R)
 		})
 	}
+	e.Corpus("unrouted-404-errorhandler", func(c *ev.Case) {
+		sh := genShape(c.R)
+		sh.Kind, sh.Route = "none", 1
+		judgeImm(e, c, immCfg{}, sh, 1, c.R)
+	})
+	e.Corpus("unrouted-405-errorhandler", func(c *ev.Case) {
+		sh := genShape(c.R)
+		sh.Kind, sh.Route = "json", 2
+		judgeImm(e, c, immCfg{}, sh, 3, c.R)
+	})
 	e.Corpus("splitting-commas-form", func(c *ev.Case) {
 		sh := genShape(c.R)
 		sh.Kind, sh.Comma = "form", true
